@@ -21,10 +21,11 @@ from .. import tbl
 PROP = "C13"
 LEVEL = "exploration"
 RULE = ("(a) exhaustive: every multiset of <=3 values from a 6-value domain per column type (84 files) x every "
-        "operator x every literal of the domain plus mid-points; (b) Hypothesis tables of 2-6 files over all column "
+        "operator x every literal of the domain plus mid-points, and cross-type sub-domains (Decimal / double spelling of float32 values / ints and floats around 2^53 / "
+        "datetime literals on date columns and dates on timestamp columns / bytes on strings); (b) Hypothesis tables of 2-6 files over all column "
         "types x filter grammar x read API; (c) decoded manifest bounds vs true min/max. A case is non-trivial when "
         "pruning skipped >=1 file (counted by wrapping the pruning function); distinct = hash of (data, filter, api).")
-ASSUMPTIONS = ["literals are of the column's type or (numeric) of a by-value comparable type within +-2^53",
+ASSUMPTIONS = ["where the pruned or the un-pruned scan raises (a literal Arrow cannot cast) there is no answer to compare; cross-type literals are compared wherever both return",
                "the un-pruned scan (identity substituted for prune_files_by_bounds) is the reference answer"]
 
 NAN = float("nan")
@@ -41,6 +42,24 @@ DOMAINS = {
                   [dt.datetime(1969, 12, 31, 23, 59, 59, 999998), dt.datetime(1969, 12, 31, 23, 59, 59, 999999), dt.datetime(1970, 1, 1),
                    dt.datetime(2024, 2, 29, 12), dt.datetime(2024, 2, 29, 12, 0, 0, 1), dt.datetime(2024, 2, 29, 12, 0, 0, 2)]),
 }
+# cross-type literal sub-domains ('<column type>#x'): the literal is another python type / precision than the column.
+# Pruning compares literal and bounds in Python, the row filter casts through Arrow: wherever both return, they must agree.
+import decimal as _dec
+
+_f32 = lambda x: __import__("struct").unpack("f", __import__("struct").pack("f", x))[0]
+DOMAINS.update({
+    "double#x": ([None, 0.1, 0.5, 1.0, float(2**53), 5.0],
+                 [_dec.Decimal("0.1"), _dec.Decimal("0.5"), _dec.Decimal("1"), _dec.Decimal("0.30"), 2**53 + 1, 2**53, _dec.Decimal(2**53) + 1, 1, 5]),
+    "float#x": ([None, _f32(0.1), 0.5, 1.0, 16777216.0, 5.0],
+                [0.1, _f32(0.1), 0.10000000000000002, _dec.Decimal("0.1"), _dec.Decimal("0.5"), 16777217, 16777216, 0.3, 5]),
+    "long#x": ([None, 1, 2, 2**53, 2**53 + 1, -3],
+               [_dec.Decimal(1), _dec.Decimal("1.5"), 1.5, 1.0, float(2**53), 9007199254740994.0, _dec.Decimal(2**53 + 1), -3.0]),
+    "date#x": ([None, dt.date(1970, 1, 1), dt.date(2024, 3, 1), dt.date(2024, 3, 5)],
+               [dt.datetime(2024, 3, 1), dt.datetime(2024, 3, 1, 12), dt.datetime(2024, 3, 5, 12), dt.datetime(1970, 1, 1, 0, 0, 0, 1), dt.datetime(2024, 3, 4, 23, 59, 59), "2024-03-01"]),
+    "timestamp#x": ([None, dt.datetime(2024, 3, 1), dt.datetime(2024, 3, 1, 12), dt.datetime(2024, 3, 5, 0, 0, 0, 1)],
+                    [dt.date(2024, 3, 1), dt.date(2024, 3, 2), dt.date(2024, 3, 5), dt.date(2024, 3, 6), "2024-03-01T12:00:00"]),
+    "string#x": ([None, "", "a", "b", "10"], [b"a", b"", b"b", b"10", b"9", 10]),
+})
 OPS = ["==", "!=", "<", "<=", ">", ">="]
 
 
@@ -110,7 +129,7 @@ def run_exhaustive(task):
     res = Result()
     typ = task["type"]
     vals, lits = DOMAINS[typ]
-    fields = [{"id": 7, "name": "x", "type": typ, "required": False}, {"id": 3, "name": "fid", "type": "long", "required": False}]
+    fields = [{"id": 7, "name": "x", "type": typ.split("#")[0], "required": False}, {"id": 3, "name": "fid", "type": "long", "required": False}]
     msets = []
     for k in range(0, 4):
         msets.extend(itertools.combinations_with_replacement(range(len(vals)), k))
@@ -142,6 +161,59 @@ def run_exhaustive(task):
     return res
 
 
+def _cross_variants(typ, v):
+    """Other python spellings of (about) the same value that Arrow accepts for the column's type: pruning compares the literal
+    with the bounds in Python, the row filter casts it to the column type - the two must not disagree."""
+    import datetime as dt
+    import decimal
+    import struct
+
+    out = []
+    if typ in ("float", "double") and isinstance(v, float) and math.isfinite(v):
+        out += [decimal.Decimal(repr(v)), float(f"{v:.7g}"), float(f"{v:.3g}")]
+        try:
+            out.append(struct.unpack("f", struct.pack("f", v))[0])
+        except OverflowError:
+            pass
+        if v.is_integer():
+            out += [int(v), int(v) + 1, decimal.Decimal(int(v))]
+        out += [decimal.Decimal("0.1"), 0.1, 2**53 + 1, -(2**53) - 1, 16777217]
+    elif typ in ("int", "long") and isinstance(v, int) and not isinstance(v, bool):
+        out += [decimal.Decimal(v), decimal.Decimal(v) + decimal.Decimal("0.5"), v + 0.5, v - 0.5]
+        if abs(v) <= 2**53:
+            out.append(float(v))
+        out += [float(2**53), float(2**63), 2**53 + 1]
+    elif typ == "date" and isinstance(v, dt.date):
+        out += [dt.datetime(v.year, v.month, v.day), dt.datetime(v.year, v.month, v.day, 12, 0), dt.datetime(v.year, v.month, v.day, 23, 59, 59, 999999), v.isoformat()]
+    elif typ == "timestamp" and isinstance(v, dt.datetime):
+        out += [v.date(), v.replace(microsecond=0), v.isoformat()]
+    elif typ in ("string", "uuid") and isinstance(v, str):
+        out += [v.encode("utf-8"), v + "\x00", v[:1]]
+    elif typ == "time" and isinstance(v, dt.time):
+        out += [v.replace(microsecond=0), v.isoformat()]
+    elif typ == "boolean":
+        out += [int(v), float(v)]
+    return out
+
+
+def _crossify(draw, cond, typ, pool):
+    """Replace the literal(s) of a condition by cross-type spellings of data values."""
+    cands = [x for v in (pool or []) if v is not None for x in _cross_variants(typ, v)]
+    if not cands:
+        return cond
+    pick = lambda: draw(st.sampled_from(cands))
+    if isinstance(cond, tuple) and len(cond) == 2:
+        op = str(cond[0]).lower()
+        if op in tbl.NULL_OPS:
+            return cond
+        if op in tbl.IN_OPS:
+            return (cond[0], [pick() for _ in range(draw(st.integers(1, 3)))])
+        if op == "between":
+            return (cond[0], (pick(), pick()))
+        return (cond[0], pick())
+    return pick()
+
+
 @st.composite
 def rand_case(draw):
     types = ["int", "long", "float", "double", "date", "time", "timestamp", "string", "uuid", "boolean"]
@@ -150,14 +222,20 @@ def rand_case(draw):
     files = [draw(tbl.rows_for(fields, 0, 4, small=draw(st.booleans()))) for _ in range(nfiles)]
     allrows = [r for f in files for r in f]
     flt = draw(tbl.filter_for(fields, allrows, max_cols=2))
+    cross = draw(st.integers(0, 3)) == 0
+    if cross:
+        # cross-type literals: Decimal / double spelling of a float32 value / int beyond 2^53 / datetime on a date column / bytes on a string column ...
+        ftype = {f["name"]: f["type"] for f in fields}
+        for col in list(flt):
+            flt[col] = _crossify(draw, flt[col], ftype[col], [r.get(col) for r in allrows])
     api = draw(st.sampled_from(READ_APIS))
     verify = draw(st.sampled_from([None, False]))
     cols = draw(st.one_of(st.none(), st.lists(st.sampled_from([f["name"] for f in fields] + ["fid"]), min_size=1, max_size=2, unique=True)))
-    return {"kind": "rand", "fields": fields, "files": files, "filter": flt, "api": api, "verify": verify, "columns": cols}
+    return {"kind": "rand", "fields": fields, "files": files, "filter": flt, "api": api, "verify": verify, "columns": cols, "cross": cross}
 
 
 def check_rand(case):
-    out = {"violations": [], "labels": [f"api:{case['api']}"], "nontrivial": False}
+    out = {"violations": [], "labels": [f"api:{case['api']}"] + (["cross-type-literal"] if case.get("cross") else []), "nontrivial": False}
     fields = case["fields"] + [{"id": 99, "name": "fid", "type": "long", "required": False}]
     with scratch_dir("c13r") as d:
         t = new_table(d + "/t", fields)
@@ -257,7 +335,7 @@ def run_task(task):
 def replay(case):
     if case["kind"] == "exh":
         typ = case["type"]
-        fields = [{"id": 7, "name": "x", "type": typ, "required": False}, {"id": 3, "name": "fid", "type": "long", "required": False}]
+        fields = [{"id": 7, "name": "x", "type": typ.split("#")[0], "required": False}, {"id": 3, "name": "fid", "type": "long", "required": False}]
         vios = []
         with scratch_dir("c13p") as d:
             t = new_table(d + "/t", fields)
